@@ -212,4 +212,160 @@ macro "wf" : tactic => `(tactic| (
     | split
     | (dsimp only))))
 
+/-! ### nesting depth as a parameter: arrays of arrays (sorted-set member listings are `*n` of `*2 $member +score`) -/
+
+/-- `r` is one RESP value of nesting depth at most `d` (`WF1 = WFd 1`, `WF = WFd 2`) -/
+def WFd (d : Nat) (r : Bytes) : Prop := ∃ v, ∀ (f : Nat) (rest : Bytes), parseOne (f + d) (r ++ rest) = some (v, rest)
+
+/-- one RESP value of nesting depth at most 3 (an array of arrays of scalars, or shallower) -/
+abbrev WF3 (r : Bytes) : Prop := WFd 3 r
+
+theorem WF1.toWFd {r : Bytes} (h : WF1 r) : WFd 1 r := h
+theorem WF.toWFd {r : Bytes} (h : WF r) : WFd 2 r := h
+theorem WFd.toWF {r : Bytes} (h : WFd 2 r) : WF r := h
+
+theorem WFd.succ {d : Nat} {r : Bytes} (h : WFd d r) : WFd (d + 1) r := by
+  obtain ⟨v, hv⟩ := h
+  refine ⟨v, fun f rest => ?_⟩
+  have := hv (f + 1) rest
+  rwa [Nat.add_assoc, Nat.add_comm 1 d] at this
+
+theorem WF.toWF3 {r : Bytes} (h : WF r) : WF3 r := (WF.toWFd h).succ
+
+/-- a depth-bounded well-formed reply is accepted by the strict parser as exactly one value -/
+theorem WFd.parses {d : Nat} {r : Bytes} (h : WFd d r) (hd : d ≤ r.length + 1) : (parseReply r).isSome = true := by
+  obtain ⟨v, hv⟩ := h
+  have := hv (r.length + 1 - d) []
+  rw [List.append_nil, Nat.sub_add_cancel hd] at this
+  simp [parseReply, this]
+
+theorem WF3.parses {r : Bytes} (h : WF3 r) : (parseReply r).isSome = true := by
+  refine WFd.parses h ?_
+  obtain ⟨v, hv⟩ := h
+  have h0 := hv 0 []
+  cases r with
+  | nil => simp [parseOne] at h0
+  | cons c t =>
+    cases t with
+    | nil => simp [parseOne, splitCrlf] at h0
+    | cons c2 t2 => simp
+
+/-- the array-element loop consumes any list of values of depth at most `d` -/
+theorem elems_wfd (d f : Nat) : ∀ (xs : List Bytes), (∀ x ∈ xs, WFd d x) → ∃ vs : List RespVal, ∀ (rest : Bytes) (acc : List RespVal),
+    parseOne.elems (f + d) xs.length (xs.flatten ++ rest) acc = some (acc.reverse ++ vs, rest) := by
+  intro xs
+  induction xs with
+  | nil => intro _; exact ⟨[], fun rest acc => by simp [parseOne.elems]⟩
+  | cons x r ih =>
+    intro h
+    obtain ⟨vs, hvs⟩ := ih (fun y hy => h y (List.mem_cons_of_mem _ hy))
+    obtain ⟨v, hv⟩ := h x List.mem_cons_self
+    refine ⟨v :: vs, fun rest acc => ?_⟩
+    simp only [List.length_cons, List.flatten_cons, List.append_assoc]
+    unfold parseOne.elems
+    rw [hv]
+    simp only
+    rw [hvs]
+    simp
+
+/-- an array header with the right count in front of that many values of depth ≤ `d` is one value of depth ≤ `d + 1` -/
+theorem wfd_arr (d : Nat) (xs : List Bytes) (h : ∀ x ∈ xs, WFd d x) : WFd (d + 1) (arrHdr xs.length ++ xs.flatten) := by
+  obtain ⟨vs0, h0⟩ := elems_wfd d 0 xs h
+  have same : ∀ f, ∀ (rest : Bytes) (acc : List RespVal),
+      parseOne.elems (f + d) xs.length (xs.flatten ++ rest) acc = some (acc.reverse ++ vs0, rest) := by
+    intro f
+    induction xs generalizing vs0 with
+    | nil =>
+      intro rest acc
+      have := h0 rest acc
+      simp [parseOne.elems] at this ⊢
+      exact this
+    | cons x r ih =>
+      intro rest acc
+      obtain ⟨v, hv⟩ := h x List.mem_cons_self
+      have h0' := h0
+      simp only [List.length_cons, List.flatten_cons, List.append_assoc] at h0' ⊢
+      unfold parseOne.elems at h0' ⊢
+      simp only [hv] at h0' ⊢
+      obtain ⟨vs1, h1⟩ := elems_wfd d 0 r (fun y hy => h y (List.mem_cons_of_mem _ hy))
+      have hvs : vs0 = v :: vs1 := by
+        have a := h0' [] []
+        rw [h1] at a
+        simpa using a.symm
+      subst hvs
+      have := ih (fun y hy => h y (List.mem_cons_of_mem _ hy)) vs1 h1 rest (v :: acc)
+      rw [this]; simp
+  refine ⟨.arr vs0, fun f rest => ?_⟩
+  have e : (arrHdr xs.length ++ xs.flatten) ++ rest =
+      42 :: (natDigits xs.length ++ 13 :: 10 :: (xs.flatten ++ rest)) := by
+    simp [arrHdr, fmtNat, crlf]
+  have ef : f + (d + 1) = (f + d) + 1 := by omega
+  rw [e, ef]
+  simp only [parseOne, splitCrlf_clean _ _ (cleanLine_natDigits _), cleanLine_natDigits, Bool.not_true,
+    Bool.false_eq_true, if_false, b42.1, b42.2.1, b42.2.2.1, b42.2.2.2, natDigits_ne_minus1, allDigits_natDigits,
+    digitsVal_natDigits, same f rest []]
+  simp
+
+theorem wfd_arrMap {α : Type} (d : Nat) (xs : List α) (f : α → Bytes) (h : ∀ x, WFd d (f x)) :
+    WFd (d + 1) (arrHdr xs.length ++ (xs.map f).flatten) := by
+  have := wfd_arr d (xs.map f) (by
+    intro y hy
+    simp only [List.mem_map] at hy
+    obtain ⟨x, _, rfl⟩ := hy
+    exact h x)
+  simpa using this
+
+/-- `*1` in front of one scalar -/
+theorem wf_arr1 (a : Bytes) (ha : WF1 a) : WF (arrHdr 1 ++ a) := by
+  have := wf_arr [a] (by intro x hx; simp at hx; subst hx; exact ha)
+  simpa using this
+
+/-- `*2` in front of two scalars -/
+theorem wf_arr2 (a c : Bytes) (ha : WF1 a) (hc : WF1 c) : WF (arrHdr 2 ++ a ++ c) := by
+  have := wf_arr [a, c] (by
+    intro x hx
+    simp at hx
+    rcases hx with rfl | rfl
+    · exact ha
+    · exact hc)
+  simpa [List.append_assoc] using this
+
+/-- success replies are exactly one RESP value of nesting depth at most 3 (whatever arrangement is emitted) -/
+def Res.WFok3 : Res → Prop
+  | .ok r => WF3 r
+  | .err _ => True
+  | .okPerm hdr groups => ∀ gs : List Bytes, gs.Perm groups → WF3 (hdr ++ gs.flatten)
+  | .okPick hdr k _ groups => ∀ picks : List Bytes, picks.length = k → (∀ g ∈ picks, g ∈ groups) →
+      WF3 (hdr ++ picks.flatten)
+
+theorem Res.WFok.to3 {r : Res} (h : Res.WFok r) : Res.WFok3 r := by
+  cases r with
+  | ok r => exact WF.toWF3 h
+  | err m => trivial
+  | okPerm hdr groups => exact fun gs hp => WF.toWF3 (h gs hp)
+  | okPick hdr k d groups => exact fun picks hl hm => WF.toWF3 (h picks hl hm)
+
+/-- depth-3 well-formed, or a member of the named exception class -/
+def Res.WFx3 (E : Res → Prop) (r : Res) : Prop := Res.WFok3 r ∨ E r
+
+/-- `WFx` with the depth-3 replies as the "exception": the `wf` tactic then proves depth ≤ 3 -/
+theorem allRet_full3 {p : Prog Res} (h : p.AllRet (Res.WFx Res.WFok3)) : p.AllRet Res.WFok3 :=
+  allRet_mono (fun _ hr => hr.elim Res.WFok.to3 id) p h
+
+theorem allRet_to3 {p : Prog Res} (h : p.AllRet Res.WFok) : p.AllRet Res.WFok3 :=
+  allRet_mono (fun _ hr => hr.to3) p h
+
+/-- the members of a map-order reply are depth-2 values, the header counts them -/
+theorem wfok3_perm (groups : List Bytes) (h : ∀ g ∈ groups, WF g) :
+    Res.WFok3 (.okPerm (arrHdr groups.length) groups) := by
+  intro gs hp
+  rw [← hp.length_eq]
+  exact wfd_arr 2 gs (fun g hg => h g (hp.mem_iff.mp hg))
+
+theorem wfok3_pick (k : Nat) (d : Bool) (groups : List Bytes) (h : ∀ g ∈ groups, WF g) :
+    Res.WFok3 (.okPick (arrHdr k) k d groups) := by
+  intro picks hl hm
+  rw [← hl]
+  exact wfd_arr 2 picks (fun g hg => h g (hm g hg))
+
 end Sugar
